@@ -324,8 +324,10 @@ def auto_selection(idx, rep, rule):
         return
     # which side holds the tolerance?
     def is_tol(e):
+        # the side that reads the algorithm's tolerance: a name `tol`, a name bound to an expression mentioning 'tol', or the
+        # lookup `alg.__dict__.get('tol', ...)` / `alg.tol` written inline
         names = df.names_in(e)
-        if "tol" in names:
+        if "tol" in names or "'tol'" in ast.unparse(e) or any(isinstance(x, ast.Attribute) and x.attr == "tol" for x in ast.walk(e)):
             return True
         return any("tol" in ast.unparse(v) for n in names for v, p, st in asg.get(n, []))
     left_tol, right_tol = is_tol(test.left), is_tol(test.comparators[0])
@@ -337,11 +339,8 @@ def auto_selection(idx, rep, rule):
         return
     # ---- the default tolerance that decides "automatic default => exact": an operator-independent literal
     a = rule.params[0][0]
-    defaults = []
-    for vals in asg.values():
-        for v, p_, st in vals:
-            if isinstance(v, ast.Call) and isinstance(v.func, ast.Attribute) and v.func.attr == "get" and len(v.args) == 2 and isinstance(v.args[0], ast.Constant) and v.args[0].value == "tol":
-                defaults.append(v.args[1])
+    defaults = [v.args[1] for v in df.calls(fi.node) if isinstance(v.func, ast.Attribute) and v.func.attr == "get" and len(v.args) == 2 and isinstance(v.args[0], ast.Constant)
+                and v.args[0].value == "tol"]
     for d in defaults:
         loc = [idx.loc(fi.module, d)]
         if a in df.names_in(d):
